@@ -147,8 +147,59 @@ def directed_histories(res, rng):
                 break
 
 
+def rejected_calls(res, rng):
+    """in-place calls that are REJECTED must leave the object exactly as it was (no half-updated metadata): set_core with a core of the right
+    dimensionality whose ranks do not fit and whose mode sizes differ from the current ones, wrong dimensionality, bad position"""
+    for kind in ("tt", "ttm"):
+        for rep in range(6):
+            d = rng.randint(2, 4)
+            N = [rng.randint(2, 4) for _ in range(d)]
+            M = [rng.randint(2, 3) for _ in range(d)] if kind == "ttm" else None
+            R = [1] + [rng.randint(2, 3) for _ in range(d - 1)] + [1]
+            x = rnd_tt(rng, N, M, tn.float64) if M is not None else rnd_tt(rng, N, None, tn.float64)
+            k = rng.randrange(d)
+            c = x.cores[k]
+            bad = []
+            sh = list(c.shape); sh[0] += 1; sh[1] += 1
+            bad.append(("rank-left+mode", k, sh))
+            sh = list(c.shape); sh[-1] += 2; sh[-2] += 1
+            bad.append(("rank-right+mode", k, sh))
+            sh = list(c.shape); sh = sh[:1] + [sh[1] + 1] + ([2] if kind == "tt" else []) + sh[2:] if kind == "tt" else [sh[0], sh[1] + 1, sh[-1]]
+            bad.append(("wrong-dims", k, sh))
+            bad.append(("position", len(x.cores), list(c.shape)))
+            for what, kk, shp in bad:
+                before = (meta_str(x), [cc.clone() for cc in x.cores], [id(cc) for cc in x.cores])
+                try:
+                    x.set_core(kk, tn.ones(shp, dtype=c.dtype))
+                    raised = False
+                except Exception:
+                    raised = True
+                res.evaluations += 1
+                res.oracle_checked += 1
+                cls = "rejected-set_core/%s/%s" % (kind, what)
+                res.classes[cls] = res.classes.get(cls, 0) + 1
+                res.nontrivial.add(hash((cls, rep)))
+                msg = None
+                if raised:
+                    if meta_str(x) != before[0]:
+                        msg = "a rejected set_core changed the metadata: %s -> %s" % (before[0], meta_str(x))
+                    elif any(a.shape != b.shape or not tn.equal(a, b) for a, b in zip(before[1], x.cores)) or len(before[1]) != len(x.cores):
+                        msg = "a rejected set_core changed the cores"
+                    else:
+                        msg = wf_violation(x)
+                else:
+                    msg = wf_violation(x)
+                    if msg is None and what != "position":
+                        msg = "set_core accepted a core that does not fit (%s) without raising" % what
+                if msg:
+                    res.violation({"property": "C05", "kind": "oracle-failure", "class": cls,
+                                   "case": "%s N=%s M=%s R=%s; set_core(%d, ones(%s))" % (kind, N, M, [int(r) for r in x.R], kk, shp), "oracle": msg, "seed": res.seed})
+                    break
+
+
 def run(res, rng, tier, known):
     directed_histories(res, rng)
+    rejected_calls(res, rng)
     nwalks, nsteps = (6, 60) if tier == "quick" else (40, 250)
     model_lines, impl_outs = [], []
     orig_init = B.TT.__init__
